@@ -355,5 +355,12 @@ def _only(rule_fn, keep):
     return wrapped
 
 
-RULES = [("R-18e", r18e), ("R-18d", r18d), ("R-18a", r18a), ("R-18b", r18b), ("R-18c", r18c),
+
+def r07h_shared(model, ctx):
+    """RTLIL emission details shared with C07 (R-07h): enum_value names, always-enabled I/O buffers, attributes of anonymous wires"""
+    from . import c07
+    c07.r07h(model, ctx)
+
+
+RULES = [("R-07h", r07h_shared), ("R-18e", r18e), ("R-18d", r18d), ("R-18a", r18a), ("R-18b", r18b), ("R-18c", r18c),
          ("R-06c", _only(c06.r06c, lambda c: "emit_io" in c or "iobuffer" in c or "emit_instance" in c))]
